@@ -19,6 +19,10 @@ CC_direct == [r \\in Reqs |-> {0}]
 CC_conn == [r \\in Reqs |-> Conns]
 CC_mixed == [r \\in Reqs |-> Conns \\cup {0}]
 Sets0 == {{}}
+KC_one == [r \\in Reqs |-> {1}]
+KC_any == [r \\in Reqs |-> Classes]
+Acl_none == {[u \\in Upds |-> {}]}
+Acl_some == {[u \\in Upds |-> {}], [u \\in Upds |-> IF u = 1 THEN {1} ELSE {}], [u \\in Upds |-> IF u = 1 THEN {2} ELSE {1}]}
 %(defs)s
 ====
 """
@@ -33,6 +37,10 @@ CONSTANTS
   SecureSets <- %(secure)s
   LimOnSets <- %(limon)s
   BadSquashSets <- %(badsq)s
+  Classes = %(classes)s
+  ClassChoice <- %(kc)s
+  AclChoices <- %(acl)s
+  Acl0Choices <- %(acl0)s
   Budgets = %(budgets)s
   MaxOps = %(maxops)d
   MinOps = 0
@@ -52,6 +60,8 @@ NoSecure == {{}}
 AllUpd == SUBSET Upds
 SomeHeld == {{}, {}, {1}, {2}, {1, 3}}
 Sets0 == {{}}
+KC_one == [r \\in Reqs |-> {1}]
+Acl_none == {[u \\in Upds |-> {}]}
 ====
 """
 
@@ -65,6 +75,10 @@ CONSTANTS
   SecureSets <- %(secure)s
   LimOnSets <- AllUpd
   BadSquashSets <- Sets0
+  Classes = {1}
+  ClassChoice <- KC_one
+  AclChoices <- Acl_none
+  Acl0Choices <- Sets0
   Budgets = {1, 2}
   MaxOps = 1
   MinOps = 1
@@ -78,8 +92,11 @@ INVARIANT Dump
 
 TRACE_TLA = """---- MODULE MCPolicySwapTrace ----
 EXTENDS PolicySwapTrace
-TReqs == 1..9
-TUpds == 1..2
+TReqs == 1..12
+TUpds == 1..3
+TClasses == 1..4
+TKC == [r \\in TReqs |-> TClasses]
+TAcl == {[u \\in TUpds |-> {}]}
 TConns == 1..3
 TCC == [r \\in TReqs |-> TConns \\cup {0}]
 TOne == {{}}
@@ -97,6 +114,10 @@ CONSTANTS
   SecureSets <- TOne
   LimOnSets <- TOne
   BadSquashSets <- TOne
+  Classes <- TClasses
+  ClassChoice <- TKC
+  AclChoices <- TAcl
+  Acl0Choices <- TOne
   Budgets = {0}
   MaxOps = 1000
   MinOps = 0
@@ -114,7 +135,7 @@ def fixed(ctx):
 
 def mc(ctx, name, defs="", **kw):
     d = dict(spec="Spec", reqs="{1, 2}", upds="{1, 2}", conns="{}", cc="CC_direct", short="Sets0", secure="Sets0", limon="Sets0",
-             badsq="Sets0", budgets="{1}", maxops=1, capture="FALSE" if fixed(ctx) else "TRUE", mutant="none", tail="")
+             badsq="Sets0", classes="{1}", kc="KC_one", acl="Acl_none", acl0="Sets0", budgets="{1}", maxops=1, capture="FALSE" if fixed(ctx) else "TRUE", mutant="none", tail="")
     d.update(kw)
     ctx.write_cfg("PolicySwap", "MCPolicySwap.tla", MC_TLA % dict(defs=defs))
     return ctx.write_cfg("PolicySwap", name, MC_CFG % d)
@@ -123,7 +144,7 @@ def mc(ctx, name, defs="", **kw):
 def exhaustive(ctx):
     q = ctx.quick()
     W = dict(workers=4 if q else 16, deadlock=False, heap="4g")
-    defs = "S1 == {{1}}\nS12 == {{}, {1}}\nU1 == {{1}}\nU12 == {{}, {1}, {2}}\nL12 == {{1}, {2}, {1, 2}}\nB2 == {{}, {2}}\nSS3 == {{}, {1}, {1, 2}}"
+    defs = "S1 == {{1}}\nS12 == {{}, {1}}\nU1 == {{1}}\nU12 == {{}, {1}, {2}}\nL12 == {{1}, {2}, {1, 2}}\nB2 == {{}, {2}}\nA0 == {{}, {2}}\nSS3 == {{}, {1}, {1, 2}}"
     inv_core = "INVARIANTS " + SAFETY + " LimiterFresh\nPROPERTIES Monotone MidDrainRetry"
     # (a) HandleCall / UpdatePolicyOptions: requests handed directly to HandleCall, time-outs, Secure policies, rejected update
     if q:
@@ -136,6 +157,9 @@ def exhaustive(ctx):
         ctx.tlc_exhaustive("PolicySwap", "MCPolicySwap", cfg, timeout=1500, **W)
         cfg = mc(ctx, "MC_core2.cfg", defs, short="SS3", secure="U12", badsq="B2", maxops=2, tail=inv_core)
         ctx.tlc_exhaustive("PolicySwap", "MCPolicySwap", cfg, timeout=900, **W)
+    # (a') address filters: two classes of client address, policies (also the one given to New) that refuse one of them
+    cfg = mc(ctx, "MC_acl.cfg", defs, upds="{1}" if q else "{1, 2}", classes="{1, 2}", kc="KC_any", acl="Acl_some", acl0="A0", tail=inv_core)
+    ctx.tlc_exhaustive("PolicySwap", "MCPolicySwap", cfg, timeout=900, **W)
     # (b) the connection loop and the limiter. The faithful model of the pinned code (CaptureLimiter) violates
     #     LimiterFresh (finding F10), so that invariant is only required of the repaired model.
     inv_lim = "INVARIANTS " + SAFETY + (" LimiterFresh" if fixed(ctx) else "")
@@ -159,7 +183,9 @@ def exhaustive(ctx):
     nv = [("captured-limiter", dict(upds="{1}", conns="{1, 2}", cc="CC_conn", limon="U1", maxops=0, capture="TRUE"), ("LimiterFresh",)),
           ("SwapBeforeDrain", dict(short="S1", mutant="SwapBeforeDrain"), ("StableWhileExecuting", "SamePolicy", "DrainedAtRet"))]
     if not q:
-        nv += [("UnlockOnTimeout", dict(short="S1", mutant="UnlockOnTimeout"), ("LockDiscipline", "StableWhileExecuting", "SamePolicy", "DrainedAtRet")),
+        nv += [("AliasedPolicy", dict(upds="{1}", classes="{1, 2}", kc="KC_any", acl="Acl_some", acl0="A0", mutant="AliasedPolicy"),
+                ("StableWhileExecuting", "JudgedBySnapshot", "SamePolicy")),
+               ("UnlockOnTimeout", dict(short="S1", mutant="UnlockOnTimeout"), ("LockDiscipline", "StableWhileExecuting", "SamePolicy", "DrainedAtRet")),
                ("ReleaseBeforeLimiter", dict(upds="{1}", conns="{1, 2}", cc="CC_conn", limon="U1", maxops=0, capture="FALSE",
                                              mutant="ReleaseBeforeLimiter"), ("LimiterMatchesPolicy", "LimiterFresh"))]
     for name, kw, expect in nv:
@@ -254,11 +280,11 @@ def run(ctx):
     exhaustive(ctx)
     sched_path, scheds = generate(ctx)
     racelog = os.path.join(ctx.scratch, "race")
-    env = {"VF_SCHED": sched_path, "VF_HIST": 32 if q else 240,
+    env = {"VF_SCHED": sched_path, "VF_HIST": 32 if q else 240, "VF_ALIAS_HIST": 12 if q else 120,
            "GORACE": "log_path=%s halt_on_error=0 exitcode=0" % racelog}
-    out = pc.run_drivers(ctx, binp, "TestVF_PolicySwap(MBT|Free|Limiter|Races)", env, timeout=900, allow_race_exit=True)
+    out = pc.run_drivers(ctx, binp, "TestVF_PolicySwap(MBT|Free|Limiter|Races|Alias)", env, timeout=900, allow_race_exit=True)
     lines, summ = [], {}
-    for part in ("mbt", "free", "lim", "race"):
+    for part in ("mbt", "free", "lim", "race", "alias"):
         p = os.path.join(ctx.scratch, "ps_%s.ndjson" % part)
         if not os.path.exists(p):
             raise vflib.Broken("driver wrote no trace %s:\n%s" % (p, out[-3000:]))
@@ -270,7 +296,7 @@ def run(ctx):
     if hr:
         raise vflib.Broken("the harness itself has a data race (not a verdict): %s" % hr[:2])
     lines.append(json.dumps({"ev": "reset", "hist": 800000, "mode": "tcp", "kind": "races", "budget": 0, "nr": 0, "nu": 0, "nc": 0,
-                             "reqs": [], "upds": []}))
+                             "reqs": [], "upds": [], "deny0": []}))
     seen = set()
     for r in races:
         k = (r["a"], r["b"])
@@ -342,7 +368,8 @@ def run(ctx):
     # ---- evidence
     ctx.cov["traces_validated_against_impl"] = explained
     ctx.cov["evaluations"] = n_real
-    ctx.cov["distinct_nontrivial"] = summ["mbt"]["nontrivial"] + summ["free"]["nontrivial"] + (1 if summ["lim"]["limited"] else 0)
+    ctx.cov["distinct_nontrivial"] = summ["mbt"]["nontrivial"] + summ["free"]["nontrivial"] + (1 if summ["lim"]["limited"] else 0) + \
+        summ["alias"]["nontrivial"]
     ctx.cov["trace_stats"] = ideal["stats"]
     ctx.cov["schedules"] = {"generated": len(scheds), "not_followed_exactly": summ["mbt"]["diverged"], "reply_kinds_mbt": summ["mbt"]["kinds"],
                             "reply_kinds_free": summ["free"]["kinds"], "race_reports": len(races)}
@@ -354,9 +381,12 @@ def run(ctx):
     ctx.cov["rule"] = ("schedules of environment actions (call r / hold r at admission / release backend gate of r / start update u / let r "
                        "time out / open connection c) generated by tlc -simulate from PolicySwapGen (server steps have priority = "
                        "quiescence), driven into the real code under -race; plus free-running histories (3 requests, 2 updates "
-                       "started together), directed limiter histories over TCP and concurrent connection set-up. A history is "
+                       "started together), directed limiter histories over TCP, concurrent connection set-up, and alias histories: address filters given "
+                       "to New and to three updates (both APIs, one of them rejected), after each of which the harness overwrites every option "
+                       "value the caller still owns (AllowedIPs slice, RateLimitConfig and TLS structs) before GetExportOptions is read and "
+                       "requests arrive from an admitted, a refused and the overwritten address. A history is "
                        "non-trivial when a request met a drain (retry-later) or ran into its deadline while its goroutine held the "
-                       "read lock, or a limiter refused a request")
+                       "read lock, a limiter refused a request, or (alias) an update was rejected")
     ctx.cov["spec_actions_covered_by_impl"] = ["Call", "Judge", "Arrive(ok)", "Arrive(retry-later)", "Snapshot", "Deny", "GoCheck", "OpStart",
                                                "OpEnd", "GoSend", "Finish", "TimerFire", "RetOk", "RetTimeout", "RetDenied", "RetJukebox",
                                                "UpdCall", "UpdBegin", "UpdReject" if any(s.get("badsq") for s in scheds) else "UpdReject(free only)",
@@ -365,7 +395,9 @@ def run(ctx):
                         "the live policy is identified by PolicyOptions.MaxFileSize (one distinct value per update)",
                         "limiter decisions are made time-independent by a per-address bucket that never refills (rate 0)",
                         "requests over TCP come from 127.0.0.1 and no Secure policy is used there (MSG_DENIED = rate limited)",
-                        "an update with EnableRateLimiting and a nil RateLimitConfig (the code keeps the previous limiter) is not generated"]
+                        "an update with EnableRateLimiting and a nil RateLimitConfig (the code keeps the previous limiter) is not generated",
+                        "client addresses fall into four classes (127.0.0.1, 10.1.1.2, 10.1.1.3 and the address written over the caller's "
+                        "values); tuning values behind pointers (Timeouts, Log) are C24's and are not overwritten here"]
 
 
 def confirm_timed(ctx, binp, sched_path, reset, why):
